@@ -108,6 +108,18 @@ FanSeqs == {<<e, f>> : e \in FanPool, f \in FanPool} \cup {<<e, f, g>> : e \in F
 Edge4 == {[kind |-> "edge", ret |-> outs[1], outs |-> outs, params |-> FanConsumer, decor |-> NoDecor, edges |-> es]
             : outs \in {<<"int">>, <<"int", "str">>, <<"str", "int">>},
               es \in {q \in FanSeqs : \A i, j \in DOMAIN q : i # j => q[i] # q[j]}}
+\* WHAT THE BUILDER HOLDS when build() is called, and in which order it got it: `present` = the tasks that were added (none,
+\* only the producer, only the consumer, both); `order` = "nodes_first" (with_node calls, then with_edge calls) or
+\* "edges_first" (with_edge calls on the empty builder, with_node calls afterwards) - the order must not matter; an edge
+\* naming a task that was never added is a fault, also when no task at all was added
+Both == {"t1", "t2"}
+PresencePool == {[st |-> "t1", so |-> "0", dt |-> "t2", mode |-> "kw", into |-> "a"],
+                 [st |-> "t1", so |-> "0", dt |-> "t2", mode |-> "ps", into |-> "0"],
+                 [st |-> "t1", so |-> "zz", dt |-> "t2", mode |-> "kw", into |-> "a"]}
+Edge5 == {[kind |-> "edge", ret |-> "", params |-> <<[name |-> "a", kind |-> "pk", ann |-> "", dflt |-> NoVal]>>, decor |-> NoDecor,
+           edges |-> es, present |-> SetToSeq(pr), order |-> ord]
+            : es \in {<<e>> : e \in PresencePool} \cup {q \in {<<e, f>> : e \in PresencePool, f \in PresencePool} : q[1] # q[2]},
+              pr \in SUBSET Both, ord \in {"nodes_first", "edges_first"}}
 \* consumer with positional-only / *args / **kwargs parameters; one edge into a real parameter, into each of those names,
 \* into a name that exists nowhere, or positional
 DecorShapes == {[st |-> "t1", so |-> "0", dt |-> "t2", mode |-> m[1], into |-> m[2]]
@@ -185,11 +197,12 @@ TaskIns(c, t) == IF t = "t2" THEN InSchema(c.params) ELSE {}
 \* of its outputs "0", "1", ...
 TaskOuts(c, t) == IF t = "t1" THEN (IF "outs" \in DOMAIN c THEN {<<ToString(i - 1), c.outs[i]>> : i \in DOMAIN c.outs} ELSE OutSchema(c.ret))
                   ELSE OutSchema("")
-Tasks == {"t1", "t2"}
+\* the tasks added to the builder when build() is called: both, unless the case says otherwise (`present`)
+TasksOf(c) == IF "present" \in DOMAIN c THEN SetOf(c.present) ELSE Both
 EdgeFaults(c, e) ==
-  LET srcT == e.st \in Tasks
+  LET srcT == e.st \in TasksOf(c)
       srcO == srcT /\ \E p \in TaskOuts(c, e.st) : p[1] = e.so
-      snkT == e.dt \in Tasks
+      snkT == e.dt \in TasksOf(c)
       snkP == snkT /\ e.mode = "kw" /\ \E p \in TaskIns(c, e.dt) : p[1] = e.into
       verdict == IF srcO /\ snkP
                  THEN Compat((CHOOSE p \in TaskOuts(c, e.st) : p[1] = e.so)[2], (CHOOSE p \in TaskIns(c, e.dt) : p[1] = e.into)[2])
@@ -230,18 +243,19 @@ RaisedClause(c) ==
           ELSE "build_raised_on_well_formed_job"
 
 PostEdge(c, r) ==
-  LET o == r.final
+  LET order == IF "order" \in DOMAIN c THEN c.order ELSE "nodes_first"
+      o == r.final
       faults == AllFaults(c)
       want == {<<e.st, e.so, e.dt, e.mode, e.into>> : e \in SetOf(c.edges)}
       got == {<<e[1], e[2], e[3], e[4], e[5]>> : e \in SetOf(o.edges)}
   IN (IF o.outcome = "raised" THEN {RaisedClause(c)} ELSE {})
 \cup (IF o.outcome = "job" /\ (JobIllFormed(o) \/ faults \ {"open"} # {}) THEN {"accepted_ill_formed_job"} ELSE {})
-\cup (IF o.outcome = "job" /\ (got # want \/ Len(o.edges) # Len(c.edges) \/ JobTaskNames(o) # Tasks)
+\cup (IF o.outcome = "job" /\ (got # want \/ Len(o.edges) # Len(c.edges) \/ JobTaskNames(o) # TasksOf(c))
       THEN {"job_differs_from_description"} ELSE {})
-\cup (IF o.outcome = "job" /\ JobTaskNames(o) = Tasks
+\cup (IF o.outcome = "job" /\ TasksOf(c) = Both /\ JobTaskNames(o) = Both
          /\ (Pairs(JobTask(o, "t2").ins) # InSchema(c.params) \/ Pairs(JobTask(o, "t1").outs) # TaskOuts(c, "t1"))
       THEN {"schema_differs_from_signature"} ELSE {})
-\cup (IF r.first_before.outcome = "job" /\ JobTaskNames(r.first_before) = Tasks
+\cup (IF r.first_before.outcome = "job" /\ TasksOf(c) = Both /\ order = "nodes_first" /\ JobTaskNames(r.first_before) = Both
          /\ (Pairs(JobTask(r.first_before, "t2").ins) # InSchema(c.params) \/ Pairs(JobTask(r.first_before, "t1").outs) # TaskOuts(c, "t1"))
       THEN {"schema_differs_from_signature"} ELSE {})
 \cup (IF o.outcome = "problems" /\ faults = {} THEN {"rejected_without_problem"} ELSE {})
@@ -294,7 +308,7 @@ Generate == IF IOEnv.CASES_FILE = "none" THEN TRUE ELSE
                   b3 == SetToSeq(Bind3)
                   b4 == SetToSeq(Bind4 \cup Bind5) \o SetToSeq(Bind6)
                   s == [i \in 1..Len(b) |-> BindJson(b[i])] \o [i \in 1..Len(b3) |-> BindJson(b3[i])] \o [i \in 1..Len(b4) |-> BindJson(b4[i])]
-                       \o SetToSeq(Edge1) \o SetToSeq(Edge2) \o SetToSeq(Edge3) \o SetToSeq(Edge4)
+                       \o SetToSeq(Edge1) \o SetToSeq(Edge2) \o SetToSeq(Edge3) \o SetToSeq(Edge4) \o SetToSeq(Edge5)
               IN JsonSerialize(IOEnv.CASES_FILE, s)
 Judge ==
   LET cs == JsonDeserialize(IOEnv.JUDGE_CASES)
